@@ -306,6 +306,38 @@ func (li *limbInterp) stmt(st ast.Stmt, s *limbState) []*limbState {
 			out = append(out, f)
 		}
 		return out
+		case *ast.SwitchStmt:
+		// "switch { case c1: ... case c2: ... default: ... }" is an if/else-if chain
+		if st.Init == nil && st.Tag == nil {
+			cur := s
+			var out []*limbState
+			var deflt *ast.CaseClause
+			okShape := true
+			for _, cl := range st.Body.List {
+				cc := cl.(*ast.CaseClause)
+				if cc.List == nil {
+					deflt = cc
+					continue
+				}
+				if len(cc.List) != 1 {
+					okShape = false
+					break
+				}
+				t, f := cur.fork(), cur.fork()
+				li.assume(cc.List[0], true, t)
+				li.assume(cc.List[0], false, f)
+				out = append(out, li.block(cc.Body, []*limbState{t})...)
+				cur = f
+			}
+			if okShape {
+				if deflt != nil {
+					out = append(out, li.block(deflt.Body, []*limbState{cur})...)
+				} else {
+					out = append(out, cur)
+				}
+				return out
+			}
+		}
 	}
 	s.unsup = append(s.unsup, li.pos(st)+fmt.Sprintf(": statement %T", st))
 	return []*limbState{s}
@@ -342,6 +374,22 @@ func (li *limbInterp) assign(l ast.Expr, v limbVal, s *limbState) {
 
 // assume records order facts from a branch condition (only a < b and !(a < b) are used).
 func (li *limbInterp) assume(cond ast.Expr, truth bool, s *limbState) {
+	if call, isCall := stripParens(cond).(*ast.CallExpr); isCall && truth {
+		// c.IsZero(): both words are zero
+		if sel, ok := call.Fun.(*ast.SelectorExpr); ok && sel.Sel.Name == "IsZero" && len(call.Args) == 0 {
+			if v := li.eval(sel.X, s, ""); v.F != nil {
+				for _, w := range v.F {
+					if name, ok := w.singleVar(); ok {
+						if s.zero == nil {
+							s.zero = map[string]bool{}
+						}
+						s.zero[name] = true
+					}
+				}
+			}
+		}
+		return
+	}
 	be, ok := stripParens(cond).(*ast.BinaryExpr)
 	if !ok {
 		return
@@ -514,6 +562,20 @@ func (li *limbInterp) eval(e ast.Expr, s *limbState, dest string) limbVal {
 			if x.P != nil && y.P != nil && y.P.IsZero() && x.P.AllPositive() {
 				return limbVal{IsBool: true, B: x.P} // x > 0 on unsigned words
 			}
+		case token.QUO, token.REM:
+			// word division: x = q*y + r with r < y (y == 0 panics in Go as bits.Div64 does); the quotient is a symbol
+			// shared by x/y and x%y, the remainder is expressed through it
+			x, y := li.eval(e.X, s, ""), li.eval(e.Y, s, "")
+			if x.P == nil || y.P == nil || x.IsBool || y.IsBool {
+				break
+			}
+			q := pSym("quo(" + x.P.String() + "," + y.P.String() + ")")
+			if e.Op == token.QUO {
+				return limbVal{P: q}
+			}
+			r := x.P.Sub(q.Mul(y.P))
+			s.lt = append(s.lt, ltFact{r, y.P})
+			return limbVal{P: r}
 		case token.ADD, token.SUB, token.MUL:
 			x, y := li.eval(e.X, s, ""), li.eval(e.Y, s, "")
 			if x.P == nil || y.P == nil || x.IsBool || y.IsBool {
